@@ -228,6 +228,17 @@ def gen_tie(rng):
     where = rng.choice(["interior", "corner"])
     n = int(np.prod(shape))
     px = [0.0] * n
+    if rng.random() < 0.25:
+        # probe of the documented default threshold 1/255 of float images: an interior spike whose
+        # unclipped value 2v/3 lies just below / just above 1/255 (and above 1/256)
+        pos = [rng.randint(1, s - 2) for s in shape]
+        flat = 0
+        for p, s in zip(pos, shape):
+            flat = flat * s + p
+        px[flat] = 1.5 * rng.choice([0.00391, 0.003915, 0.00393, 0.00395])
+        return dict(stream="bp", shape=shape, pixels=px, kind="default-probe", dtype="float64",
+                    layout="C", lshort=0, llong=[3] + [1] * (nd - 1), threshold=None, truncate=4,
+                    lin_c=2.0, perm=list(range(nd))[::-1])
     if where == "interior":
         pos = [rng.randint(1, s - 2) for s in shape]
         # value v, box mean v/3^nd  -> diff = v (1 - 3^-nd): not dyadic; use lshort=0, llong=(3,1,..):
